@@ -280,6 +280,7 @@ func propC11(w *World, r *Run) {
 	ruleProofFraming(w, r, "C11.h")
 	ruleDecodeIntoSizedBuffer(w, r, "C11.i", reachableModule(w, []*ssa.Function{w.fn(fnUnmarshal), w.fn(fnParseBody)}))
 	ruleNoAppendOntoSharedPrefix(w, r, "C11.j")
+	rulePoolPutOnce(w, r, "C11.k")
 }
 
 func init() {
@@ -474,4 +475,5 @@ func propC19(w *World, r *Run) {
 	ruleTickerDurationsPositive(w, r, "C19.q")
 	ruleDoublingLoopsTerminate(w, r, "C19.r")
 	ruleDistributorLoop(w, r, "C19.s", "C19.s")
+	rulePoolPutOnce(w, r, "C19.t")
 }
